@@ -151,6 +151,13 @@ impl SupervisionTree {
         cells
     }
 
+    /// verif: `true` once `take_children` has closed this actor's child set (a closed and an empty set
+    /// look the same through `get_children`)
+    #[cfg(feature = "verif")]
+    pub(crate) fn verif_children_closed(&self) -> bool {
+        self.children.lock().unwrap().is_none()
+    }
+
     /// Try and retrieve the set supervisor
     pub(crate) fn try_get_supervisor(&self) -> Option<ActorCell> {
         self.supervisor.lock().unwrap().clone()
